@@ -429,6 +429,31 @@ def fam_exhaustive_par(tier, tag, variants=("plain", "backing", "special"), parn
     return out
 
 
+def fam_exhaustive_faults(tier, tag, seed=1):
+    """small-scope exhaustive faults: every history of at most two operations
+    (spec/GenOps.tla) followed by flush_meta, on three image variants, with a
+    fault at each backend request index of that section; then recovery"""
+    if 2 not in _EXH:
+        _EXH[2] = Q.tlc_enumerate("GenOps.tla", env={"DEPTH": "2"}, timeout=600)[0]
+    geo = dict(cb=10, ro=4, bsb=9, vclusters=4, params={"l2": [9, 1024], "rb": [9, 1024]})
+    imgs = _exh_images()
+    rd = {"op": "read", "gb": 0, "n": 8}
+    rng = random.Random(seed * 11 + 3)
+    out = []
+    hs = [h for h in _EXH[2] if not any(o["op"] == "r" for o in h["ops"])]
+    nf = 18 if tier == "quick" else 30
+    for v in ("plain", "backing", "special"):
+        for h in hs:
+            ops = [_exh_step(o) for o in h["ops"]] + [{"op": "flush"}]
+            tail = [{"op": "recover", "retries": 4}, rd, {"op": "shrink"}, rd, {"op": "flush"}, {"op": "reopen"}, rd]
+            ks = range(nf) if tier != "quick" else sorted(rng.sample(range(nf), 6))
+            for k in ks:
+                out.append(S.mk(f"{tag}-{v}-{_exh_code(h['ops'])}-f{k}", geo, imgs[v],
+                                [{"op": "fail_next", "nth": k, "partial": k % 3 == 2}] + ops + tail,
+                                punch_unsupported=(k % 4 == 3)))
+    return out
+
+
 def fam_cowread(tier, seed, tag, nruns):
     """reads overlapping copy-on-write in time: partial writes over backing /
     compressed clusters with concurrent reads of the same and neighbouring clusters"""
@@ -1186,6 +1211,7 @@ def check_C17(chk):
         scens.append(S.mk(f"c17-{h}-nopunch", geo, images, list(pre) + list(ops) + [{"op": "sweep"}, {"op": "flush"}, {"op": "reopen"}, {"op": "sweep"}],
                           punch_unsupported=True))
     scens += fam_growth(chk.tier, chk.seed, "c17g", 4 if chk.tier == "quick" else 24, faults=8 if chk.tier == "quick" else 2)
+    scens += fam_exhaustive_faults(chk.tier, "c17e", seed=chk.seed)
     # (b) hole punching unsupported AND a fault at each request (the zero-write fallback itself can fail); after recovery the
     # caches are dropped and the touched slices are used again before the final reopen
     for h in range(2 if chk.tier == "quick" else 16):
